@@ -1643,6 +1643,57 @@ def _nd_from_shape_vec(ctx, args, ck):
     return Ok(Struct('NdArray', [Tup(list(dims)), v], ['shape', 'data']))
 
 
+@model('ArrayBase::ncols', 'ArrayBase::nrows', 'ArrayBase::len', 'ArrayBase::dim', 'ArrayBase::shape')
+def _nd_dims(ctx, args, ck):
+    a = ctx.m.peel(args[0])
+    dims = a.get('shape').fields
+    if ck.name == 'nrows':
+        return dims[0]
+    if ck.name == 'ncols':
+        return dims[1] if len(dims) > 1 else Int(1, 'usize')
+    if ck.name == 'len':
+        return Int(len(a.get('data').items), 'usize')
+    if ck.name == 'dim':
+        return dims[0] if len(dims) == 1 else Tup(list(dims))
+    from values import SliceRef
+    return SliceRef(list(dims), 0, len(dims))
+
+
+@model('ArrayBase::from_elem')
+def _nd_from_elem(ctx, args, ck):
+    shape = ctx.m.peel(args[0])
+    dims = list(shape.fields) if isinstance(shape, Tup) else [shape]
+    total = 1
+    for d in dims:
+        k = ctx.concretize(d, 0, 4096)
+        if k is None:
+            raise Unsupported('ndarray from_elem with an unbounded symbolic dimension')
+        total *= k
+    return Struct('NdArray', [Tup(dims), VecObj([args[1]] * total)], ['shape', 'data'])
+
+
+@model('ArrayBase::rows_mut', 'ArrayBase::rows', 'ArrayBase::outer_iter', 'ArrayBase::outer_iter_mut')
+def _nd_rows(ctx, args, ck):
+    # rows of a 2-d array as windows of the row-major data (mutations through them reach the array)
+    a = ctx.m.peel(args[0])
+    dims = a.get('shape').fields
+    if len(dims) != 2 or not all(isinstance(d.v, int) for d in dims):
+        raise Unsupported('rows of a non-2d / symbolic-shape array')
+    r, w = dims[0].v, dims[1].v
+    data = a.get('data').items
+    return ListIter([SliceRef(data, i * w, (i + 1) * w) for i in range(r)])
+
+
+@model('ArrayBase::iter_mut', 'ArrayBase::iter')
+def _nd_iter(ctx, args, ck):
+    from models_iter import SliceIter
+    a = ctx.m.peel(args[0])
+    if isinstance(a, SliceRef):
+        return SliceIter(a.cont, a.lo, a.hi)
+    items = a.get('data').items
+    return SliceIter(items, 0, len(items))
+
+
 @model('ArrayBase::from_vec')
 def _nd_from_vec(ctx, args, ck):
     v = args[0]
